@@ -125,15 +125,42 @@ func (c *Ctx) Reject(fnName string, sel Sel, conj ...string) bool {
 			fs := append(append([]Fact{}, base...), Fact{edgeAtom, ifi})
 			all := true
 			var outer *ssa.If
+			// A conj atom is matched by a fact it is the same as or that it implies (x == 4
+			// implies 2 <= x and x <= 5: a range test stands for each of its values). Every
+			// numeric fact about the same terms must then be implied too, otherwise the edge
+			// is not taken whenever the atom holds.
+			ordered := func(k string) bool { return k == LE || k == EQ || k == NE }
 			for _, a := range as {
 				hit := false
 				for _, f := range fs {
-					if SameAtom(f.Atom, a) {
-						hit = true
-						if outer == nil || f.If.Block().Dominates(outer.Block()) {
-							outer = f.If
+					same := SameAtom(f.Atom, a)
+					imp := !same && ordered(a.Kind) && ordered(f.Atom.Kind) && Implies(a, f.Atom)
+					if same || imp {
+						if !hit || imp {
+							if outer == nil || f.If.Block().Dominates(outer.Block()) {
+								outer = f.If
+							}
 						}
-						break
+						hit = true
+						if same {
+							break
+						}
+					}
+				}
+				if hit && ordered(a.Kind) {
+					for _, f := range fs {
+						if ordered(f.Atom.Kind) && SameTerms(f.Atom, a) && !SameAtom(f.Atom, a) && !Implies(a, f.Atom) {
+							// only disqualifying when the match relied on implication
+							exact := false
+							for _, g := range fs {
+								if SameAtom(g.Atom, a) {
+									exact = true
+								}
+							}
+							if !exact {
+								hit = false
+							}
+						}
 					}
 				}
 				if !hit {
@@ -141,10 +168,10 @@ func (c *Ctx) Reject(fnName string, sel Sel, conj ...string) bool {
 					break
 				}
 			}
-			// the edge's own condition must be one of the conj atoms
+			// the edge's own condition must be (implied by) one of the conj atoms
 			own := false
 			for _, a := range as {
-				if SameAtom(edgeAtom, a) {
+				if SameAtom(edgeAtom, a) || ordered(a.Kind) && ordered(edgeAtom.Kind) && Implies(a, edgeAtom) {
 					own = true
 				}
 			}
